@@ -7,7 +7,10 @@
 //!   * the real avar and fvar work items of `fontbe` (`create_avar_work`, `create_fvar_work`)
 //!     executed on a `StaticMetadata` holding just that axis: required maps, monotonicity,
 //!     `avar(fvar_norm(u))` against the reference, fvar bounds and instance coordinates.
-//! `part_font` (the same axes written as designspace / Glyphs sources and compiled) is added later.
+//! Part (ii), `part_font`: the same axes written as a designspace `<map>` on a small font and
+//! compiled; fvar/avar of the font are judged, and NAMED INSTANCES are a dimension of their own:
+//! every location over {min, default, max, an interior node, a midpoint} per axis, spelling every
+//! axis or leaving out any subset of the `<dimension>` elements (a missing dimension = axis default).
 use fontbe::{
     avar::{PossiblyEmptyAvar, create_avar_work},
     fvar::create_fvar_work,
@@ -773,16 +776,71 @@ fn degenerate_qual(def: &AxisDef) -> &'static str {
     }
 }
 
+/// One named instance of the source. Per axis: Some(user value) = the `<dimension>` is written
+/// (in design coordinates, through the axis map), None = the dimension is left out of the
+/// `<location>`, which in a designspace means "at the axis default".
+#[derive(Clone, Debug)]
+struct InstSpec {
+    style: String,
+    coords: Vec<Option<f64>>,
+}
+
+/// the name of a dimension that no axis declares (readers warn and skip it, as fontTools does);
+/// it keeps a location that spells none of the axes non-empty
+const UNDECLARED_DIMENSION: &str = "Unused";
+
+/// Instance coordinates of one axis: min, default, max, the first interior mapping node that is
+/// not the default (if any) and the midpoint of the first segment; duplicates removed.
+fn instance_users(def: &AxisDef) -> Vec<f64> {
+    let r = Reference::of(def);
+    let k = def.nodes.len();
+    let mut v = vec![r.umin, r.udef, r.umax];
+    if let Some(i) = (1..k - 1).find(|i| *i != def.default_idx) {
+        v.push(def.nodes[i].0);
+    }
+    v.push((def.nodes[0].0 + def.nodes[1].0) / 2.0);
+    let mut out: Vec<f64> = vec![];
+    for x in v {
+        if !out.contains(&x) {
+            out.push(x);
+        }
+    }
+    out
+}
+
+/// Every instance of the stated space: for every subset of axes that is left out (none first),
+/// every combination of the spelled axes' coordinates.
+fn instance_specs(defs: &[AxisDef]) -> Vec<InstSpec> {
+    let n = defs.len();
+    let alph: Vec<Vec<f64>> = defs.iter().map(instance_users).collect();
+    let mut out: Vec<InstSpec> = vec![];
+    for omit_mask in 0u32..(1 << n) {
+        let mut locs: Vec<Vec<Option<f64>>> = vec![vec![]];
+        for (i, a) in alph.iter().enumerate() {
+            let choices: Vec<Option<f64>> = if omit_mask & (1 << i) != 0 { vec![None] } else { a.iter().map(|u| Some(*u)).collect() };
+            locs = locs.iter().flat_map(|l| choices.iter().map(move |c| { let mut l2 = l.clone(); l2.push(*c); l2 })).collect();
+        }
+        for coords in locs {
+            // the instance that spells the default location carries the default master's style name
+            let at_default = omit_mask == 0 && coords.iter().zip(defs).all(|(c, d)| *c == Some(Reference::of(d).udef));
+            let style = if at_default { "Regular".to_string() } else { format!("Inst{}", out.len()) };
+            out.push(InstSpec { style, coords });
+        }
+    }
+    out
+}
+
 /// The design for a list of axis definitions: masters at the default and at every design
-/// extreme that differs from it (on-axis), one glyph, three named instances.
-fn axes_design(defs: &[AxisDef]) -> (dgen::Design, Vec<Vec<f64>>) {
+/// extreme that differs from it (on-axis), one glyph, the named instances of `instance_specs`.
+/// `tags[i]` = (tag, name) of axis i, in declared order.
+fn axes_design(defs: &[AxisDef], tags: &[(&str, &str)], inst: &[InstSpec]) -> (dgen::Design, dgen::DsOpts) {
     use dgen::*;
     let axes: Vec<Axis> = defs
         .iter()
         .enumerate()
         .map(|(i, d)| {
             let r = Reference::of(d);
-            let mut a = Axis::new(F_AXES[i].0, F_AXES[i].1, r.umin, r.udef, r.umax);
+            let mut a = Axis::new(tags[i].0, tags[i].1, r.umin, r.udef, r.umax);
             // identity maps are written without a <map> element
             if d.nodes.iter().any(|(u, dv)| u != dv) {
                 a.map = d.nodes.clone();
@@ -810,16 +868,43 @@ fn axes_design(defs: &[AxisDef]) -> (dgen::Design, Vec<Vec<f64>>) {
         g.layers.insert(m, Layer { advance: w + 100.0, contours: vec![shapes::rect(50.0, 0.0, 50.0 + w, 700.0)], ..Default::default() });
     }
     design.glyphs.push(g);
-    // instances: all axes at min, all at max, and an interior point of every axis
-    let inst: Vec<Vec<f64>> = vec![
-        defs.iter().map(|d| Reference::of(d).umin).collect(),
-        defs.iter().map(|d| Reference::of(d).umax).collect(),
-        defs.iter().map(|d| { let s = sample_users(d); s[s.len() / 2 + 1 - (s.len() % 2)] }).collect(),
-    ];
-    for (i, u) in inst.iter().enumerate() {
-        design.instances.push(Instance { family: None, style: format!("Inst{i}"), ps_name: None, user_loc: u.clone() });
+    let mut opts = DsOpts::default();
+    for (ii, spec) in inst.iter().enumerate() {
+        // what the source SAYS: a left-out dimension is the axis default
+        let user_loc: Vec<f64> = spec.coords.iter().zip(defs).map(|(c, d)| c.unwrap_or(Reference::of(d).udef)).collect();
+        let omitted: Vec<usize> = spec.coords.iter().enumerate().filter(|(_, c)| c.is_none()).map(|(i, _)| i).collect();
+        if !omitted.is_empty() {
+            if omitted.len() == defs.len() {
+                opts.instance_extra_dims.insert(ii, vec![(UNDECLARED_DIMENSION.to_string(), 0.0)]);
+            }
+            opts.instance_omit.insert(ii, omitted);
+        }
+        design.instances.push(Instance { family: None, style: spec.style.clone(), ps_name: None, user_loc });
     }
-    (design, inst)
+    (design, opts)
+}
+
+fn case_tags(n_axes: usize, swap_tags: bool) -> Vec<(&'static str, &'static str)> {
+    let mut t: Vec<(&str, &str)> = F_AXES[..n_axes].to_vec();
+    if swap_tags {
+        t.reverse();
+    }
+    t
+}
+
+/// The Windows / Unicode BMP / en-US strings of the name table, by name id.
+fn win_names(font: &[u8]) -> Result<BTreeMap<u16, String>, String> {
+    use write_fonts::read::{FontRef, TableProvider};
+    let f = FontRef::new(font).map_err(|e| format!("sfnt: {e}"))?;
+    let name = f.name().map_err(|e| format!("name: {e}"))?;
+    let mut out = BTreeMap::new();
+    for r in name.name_record() {
+        if r.platform_id() == 3 && r.encoding_id() == 1 && r.language_id() == 0x409 {
+            let s: String = r.string(name.string_data()).map_err(|e| format!("name string: {e}"))?.chars().collect();
+            out.entry(r.name_id().to_u16()).or_insert(s);
+        }
+    }
+    Ok(out)
 }
 
 /// Worker-local source directories, one per master count (the UFOs do not depend on the case).
@@ -831,7 +916,7 @@ impl FontRig {
     fn new() -> FontRig {
         FontRig { dirs: BTreeMap::new() }
     }
-    fn compile(&mut self, design: &dgen::Design) -> Result<Vec<u8>, fcx::Failure> {
+    fn compile(&mut self, design: &dgen::Design, opts: &dgen::DsOpts) -> Result<Vec<u8>, fcx::Failure> {
         let nm = design.masters.len();
         let dir = self.dirs.entry(nm).or_insert_with(|| {
             let sc = vcore::Scratch::new("c08");
@@ -841,7 +926,7 @@ impl FontRig {
             sc
         });
         let path = dir.join("design.designspace");
-        if let Err(e) = std::fs::write(&path, design.designspace_xml()) {
+        if let Err(e) = std::fs::write(&path, design.designspace_xml_with(opts)) {
             vcore::machinery_error(&format!("cannot write designspace: {e}"));
         }
         fcx::compile(&path, &fcx::Opts::default(), None)
@@ -862,6 +947,15 @@ struct FCounts {
     instances_exact: u64,
     max_err_over_tol: f64,
     two_axis_fonts: u64,
+    instances_judged: u64,
+    instances_with_omitted_axis: u64,
+    instances_spelling_no_axis: u64,
+    omitted_coordinates: u64,
+    omitted_coordinates_default_nonzero: u64,
+    instance_names_resolved: u64,
+    instances_reusing_subfamily_id: u64,
+    nonalphabetical_axis_order: u64,
+    max_instances_per_font: u64,
 }
 
 impl FCounts {
@@ -878,11 +972,20 @@ impl FCounts {
         self.instances_exact += o.instances_exact;
         self.max_err_over_tol = self.max_err_over_tol.max(o.max_err_over_tol);
         self.two_axis_fonts += o.two_axis_fonts;
+        self.instances_judged += o.instances_judged;
+        self.instances_with_omitted_axis += o.instances_with_omitted_axis;
+        self.instances_spelling_no_axis += o.instances_spelling_no_axis;
+        self.omitted_coordinates += o.omitted_coordinates;
+        self.omitted_coordinates_default_nonzero += o.omitted_coordinates_default_nonzero;
+        self.instance_names_resolved += o.instance_names_resolved;
+        self.instances_reusing_subfamily_id += o.instances_reusing_subfamily_id;
+        self.nonalphabetical_axis_order += o.nonalphabetical_axis_order;
+        self.max_instances_per_font = self.max_instances_per_font.max(o.max_instances_per_font);
     }
 }
 
 /// Compile the axes and judge fvar/avar. Findings: (class key, message).
-fn check_font(defs: &[AxisDef], rig: &mut FontRig, cnt: &mut FCounts, sample: Option<&mut Vec<Value>>) -> Vec<(String, String)> {
+fn check_font(defs: &[AxisDef], swap_tags: bool, rig: &mut FontRig, cnt: &mut FCounts, sample: Option<&mut Vec<Value>>) -> Vec<(String, String)> {
     let mut bad: Vec<(String, String)> = vec![];
     if defs.iter().any(|d| degenerate_qual(d) == ":design-extent-zero") {
         // no two masters can differ on such an axis: not a variable-font source at all
@@ -897,8 +1000,14 @@ fn check_font(defs: &[AxisDef], rig: &mut FontRig, cnt: &mut FCounts, sample: Op
     if defs.len() > 1 {
         cnt.two_axis_fonts += 1;
     }
-    let (design, inst) = axes_design(defs);
-    let font = match rig.compile(&design) {
+    let tags = case_tags(defs.len(), swap_tags);
+    if tags.windows(2).any(|w| w[0].0 > w[1].0) {
+        cnt.nonalphabetical_axis_order += 1;
+    }
+    let inst = instance_specs(defs);
+    cnt.max_instances_per_font = cnt.max_instances_per_font.max(inst.len() as u64);
+    let (design, opts) = axes_design(defs, &tags, &inst);
+    let font = match rig.compile(&design, &opts) {
         Ok(f) => f,
         Err(f) => {
             cnt.compile_failures += 1;
@@ -915,8 +1024,9 @@ fn check_font(defs: &[AxisDef], rig: &mut FontRig, cnt: &mut FCounts, sample: Op
         Err(e) => return vec![("font-unreadable:font".into(), format!("otvar: {e}"))],
     };
     let axes = vf.axes();
-    if axes.len() != defs.len() || axes.iter().zip(F_AXES).any(|(a, t)| a.tag != t.0) {
-        return vec![("fvar-axes-differ:font".into(), format!("fvar axes {:?}", axes.iter().map(|a| a.tag.clone()).collect::<Vec<_>>()))];
+    // fvar axes: the declared ones in the declared order (not sorted by tag)
+    if axes.len() != defs.len() || axes.iter().zip(&tags).any(|(a, t)| a.tag != t.0) {
+        return vec![("fvar-axes-differ:font".into(), format!("fvar axes {:?}, declared {:?}", axes.iter().map(|a| a.tag.clone()).collect::<Vec<_>>(), tags.iter().map(|t| t.0).collect::<Vec<_>>()))];
     }
     let data = vf.axes_data();
     match &data.avar {
@@ -994,32 +1104,104 @@ fn check_font(defs: &[AxisDef], rig: &mut FontRig, cnt: &mut FCounts, sample: Op
     if any_nontrivial {
         cnt.nontrivial += 1;
     }
-    // named instances: inside the axis range, and at the source's user values where the mapping
-    // can be inverted there (instances are written in design coordinates)
+    // named instances: as many as in the source and in its order; every coordinate inside the
+    // axis range (the font's own fvar range and the source's); a left-out dimension sits at the
+    // axis default; a spelled one at the source's user value where the mapping can be inverted
+    // there (instances are written in design coordinates); the subfamily name id resolves to the
+    // instance's style name
     if data.instances.len() != inst.len() {
         bad.push(("fvar-instance-count:font".into(), format!("{} instances in the source, {} in fvar", inst.len(), data.instances.len())));
     }
-    for (got, want) in data.instances.iter().zip(&inst) {
+    let names = match win_names(&font) {
+        Ok(n) => n,
+        Err(e) => {
+            bad.push(("name-table-unreadable:font".into(), e));
+            BTreeMap::new()
+        }
+    };
+    for (ii, (got, want)) in data.instances.iter().zip(&inst).enumerate() {
+        cnt.instances_judged += 1;
+        let n_omitted = want.coords.iter().filter(|c| c.is_none()).count();
+        if n_omitted > 0 {
+            cnt.instances_with_omitted_axis += 1;
+        }
+        if n_omitted == defs.len() {
+            cnt.instances_spelling_no_axis += 1;
+        }
+        let spelled = |w: &InstSpec| -> String {
+            w.coords.iter().enumerate().map(|(i, c)| match c { Some(u) => format!("{}={u}", tags[i].0), None => format!("{} left out", tags[i].0) }).collect::<Vec<_>>().join(", ")
+        };
+        if got.coords.len() != defs.len() {
+            bad.push(("instance-coordinate-count:font".into(), format!("instance {ii} has {} coordinates for {} axes", got.coords.len(), defs.len())));
+            continue;
+        }
         for (i, def) in defs.iter().enumerate() {
-            let (g, w) = (got.coords.get(i).copied().unwrap_or(f64::NAN), want[i]);
+            let g = got.coords[i];
             let r = Reference::of(def);
+            let a = &axes[i];
             cnt.instances_checked += 1;
-            if !(r.umin..=r.umax).contains(&g) {
-                bad.push(("instance-out-of-range:font".into(), format!("axis {}: instance coordinate {g} outside [{}, {}]", F_AXES[i].0, r.umin, r.umax)));
+            // a location that spells no axis at all is only expressible through the undeclared
+            // dimension (see UNDECLARED_DIMENSION): its own class
+            let q = match want.coords[i] {
+                Some(_) => "",
+                None if n_omitted == defs.len() => ":omitted-axis:undeclared-dimension-only",
+                None => ":omitted-axis",
+            };
+            if !(a.min..=a.max).contains(&g) || !(r.umin..=r.umax).contains(&g) {
+                bad.push((format!("instance-out-of-range{q}:font"), format!("instance {ii} ({}): axis {} coordinate {g} outside [{}, {}]", spelled(want), tags[i].0, r.umin, r.umax)));
             }
-            let invertible = def.nodes.windows(2).all(|s| !(s[0].0 <= w && w <= s[1].0) || s[0].1 < s[1].1);
-            if invertible {
-                cnt.instances_exact += 1;
-                // design -> user interpolation in f64, then one Fixed 16.16 rounding
-                if (g - w).abs() > 1.0 / 65536.0 + 1e-9 {
-                    bad.push(("instance-coordinate-mismatch:font".into(), format!("axis {}: instance placed at user {w} has fvar coordinate {g}", F_AXES[i].0)));
+            match want.coords[i] {
+                None => {
+                    cnt.omitted_coordinates += 1;
+                    if r.udef != 0.0 {
+                        cnt.omitted_coordinates_default_nonzero += 1;
+                    }
+                    // the axis default is written as-is into the axis record; the same Fixed value here
+                    if fx(g) != fx(r.udef) {
+                        bad.push((format!("instance-coordinate-mismatch{q}:font"), format!("instance {ii} ({}): axis {} is left out of the location, so it sits at the axis default {}, but its fvar coordinate is {g}", spelled(want), tags[i].0, r.udef)));
+                    }
                 }
+                Some(w) => {
+                    let seg_of_w = |s: &&[(f64, f64)]| s[0].0 <= w && w <= s[1].0;
+                    let invertible = def.nodes.windows(2).filter(seg_of_w).all(|s| s[0].1 < s[1].1);
+                    if invertible {
+                        cnt.instances_exact += 1;
+                        // the location is written as the decimal text of design value d and read as
+                        // f32; design -> user is interpolated in f64 (error << 2^-17) and rounded
+                        // to Fixed 16.16 once. When d is an f32 and w a Fixed value, the result is w
+                        // exactly; otherwise one Fixed unit plus the f32 error scaled by du/dd.
+                        let d = pl(&def.nodes, w);
+                        let f32_err = ((d as f32) as f64 - d).abs();
+                        let du_dd = def.nodes.windows(2).filter(seg_of_w).map(|s| (s[1].0 - s[0].0) / (s[1].1 - s[0].1)).fold(0.0f64, f64::max);
+                        let fixed_exact = (w * 65536.0).fract() == 0.0;
+                        let tol = if f32_err == 0.0 && fixed_exact { 0.0 } else { 1.0 / 65536.0 + f32_err * du_dd + 1e-9 };
+                        if (g - w).abs() > tol {
+                            bad.push(("instance-coordinate-mismatch:font".into(), format!("instance {ii} ({}): axis {} placed at user {w} (design {d}) has fvar coordinate {g}", spelled(want), tags[i].0)));
+                        }
+                    }
+                }
+            }
+        }
+        // OpenType fvar: subfamilyNameID is 2, 17 or a font-specific id (> 255)
+        let id = got.subfamily_name_id;
+        if !(id == 2 || id == 17 || (256..32768).contains(&id)) {
+            bad.push(("instance-name-id-reserved:font".into(), format!("instance {ii} ({}) has subfamilyNameID {id}", spelled(want))));
+        }
+        if id == 2 || id == 17 {
+            cnt.instances_reusing_subfamily_id += 1;
+        }
+        if !names.is_empty() {
+            match names.get(&id) {
+                Some(s) if *s == want.style => cnt.instance_names_resolved += 1,
+                other => bad.push(("instance-name-mismatch:font".into(), format!("instance {ii} ({}) is called {:?} in the source; its subfamilyNameID {id} resolves to {other:?}", spelled(want), want.style))),
             }
         }
     }
     if let Some(s) = sample {
         s.push(json!({"axes": sample_axes, "masters": design.masters.iter().map(|m| m.loc.clone()).collect::<Vec<_>>(),
-            "instances_user": inst, "instances_fvar": data.instances.iter().map(|i| i.coords.clone()).collect::<Vec<_>>(),
+            "axis_tags_declared": tags.iter().map(|t| t.0).collect::<Vec<_>>(),
+            "instances_source": inst.iter().map(|i| json!({"style": i.style, "user (null = dimension left out)": i.coords})).collect::<Vec<_>>(),
+            "instances_fvar": data.instances.iter().map(|i| json!({"coords": i.coords, "subfamily_name_id": i.subfamily_name_id})).collect::<Vec<_>>(),
             "verdict": if bad.is_empty() { "held" } else { "violated" }}));
     }
     bad.sort();
@@ -1043,14 +1225,54 @@ fn defs_over(users: &[f64], designs: &[f64], max_nodes: usize) -> Vec<AxisDef> {
     out
 }
 
-fn font_json(defs: &[AxisDef]) -> Value {
-    json!({"part": "font", "axes": defs.iter().map(|d| d.json()).collect::<Vec<_>>()})
+fn font_json(defs: &[AxisDef], swap_tags: bool) -> Value {
+    json!({"part": "font", "axes": defs.iter().map(|d| d.json()).collect::<Vec<_>>(), "swap_tags": swap_tags,
+        "axis_tags_declared": case_tags(defs.len(), swap_tags).iter().map(|t| t.0).collect::<Vec<_>>()})
+}
+
+/// A `<location>` without any `<dimension>` (valid: everything at default): does the compiler take
+/// it, and if so where does the instance sit? Evidence only unless the font is built and wrong.
+/// Returns (outcome text, findings).
+fn run_empty_location_probe() -> (String, Vec<(String, String)>) {
+    let defs = vec![AxisDef { nodes: vec![(100.0, 20.0), (400.0, 90.5), (900.0, 200.0)], default_idx: 1 }];
+    let tags = case_tags(1, false);
+    let inst = vec![InstSpec { style: "Inst0".into(), coords: vec![None] }];
+    let (design, mut opts) = axes_design(&defs, &tags, &inst);
+    opts.instance_extra_dims.clear();
+    let mut rig = FontRig::new();
+    match rig.compile(&design, &opts) {
+        Err(fcx::Failure::Error(e)) => (format!("rejected: {e}"), vec![]),
+        Err(fcx::Failure::Panic(e)) => (
+            format!("panic: {e}"),
+            vec![("compile-panic:empty-instance-location:font".into(), format!("an instance <location> without dimensions makes the compiler panic: {e}"))],
+        ),
+        Ok(font) => match otvar::VFont::new(&font) {
+            Err(e) => (format!("built, unreadable: {e}"), vec![("font-unreadable:font".into(), format!("otvar: {e}"))]),
+            Ok(vf) => {
+                let c: Vec<Vec<f64>> = vf.axes_data().instances.iter().map(|i| i.coords.clone()).collect();
+                let mut bad = vec![];
+                if c != vec![vec![400.0]] {
+                    bad.push(("instance-coordinate-mismatch:omitted-axis:empty-location:font".into(), format!("an instance <location> without dimensions sits at the axis default 400, fvar has {c:?}")));
+                }
+                (format!("accepted; fvar instance coordinates {c:?}"), bad)
+            }
+        },
+    }
+}
+
+fn probe_empty_location(rep: &mut Reporter) {
+    let (outcome, bad) = run_empty_location_probe();
+    for (k, m) in bad {
+        rep.violation(&k, &m, json!({"part": "empty-location-probe"}));
+    }
+    rep.set("font_empty_instance_location", outcome);
 }
 
 fn part_font(rep: &mut Reporter, tier: Tier) -> Stats {
     // single axis: every definition over the stated alphabets; two axes: every small definition
-    // next to each companion axis, in both axis orders
-    let mut cases: Vec<Vec<AxisDef>> = match tier {
+    // next to each companion axis, in both axis orders, with the tags declared as wght, wdth
+    // (declared order differs from the alphabetical one) and as wdth, wght
+    let mut cases: Vec<(Vec<AxisDef>, bool)> = match tier {
         Tier::Quick => defs_over(&F_USERS, &F_DESIGNS, 4),
         Tier::Thorough => {
             let mut v = defs_over(&USERS, &DESIGNS, 4);
@@ -1059,14 +1281,16 @@ fn part_font(rep: &mut Reporter, tier: Tier) -> Stats {
         }
     }
     .into_iter()
-    .map(|d| vec![d])
+    .map(|d| (vec![d], false))
     .collect();
     let single = cases.len();
     let small = defs_over(&F_USERS[..5], &[20.0, 40.0, 90.5, 120.0, 200.0], tier.pick(3, 4));
     for d in &small {
         for c in companions() {
-            cases.push(vec![d.clone(), c.clone()]);
-            cases.push(vec![c, d.clone()]);
+            for swap_tags in [false, true] {
+                cases.push((vec![d.clone(), c.clone()], swap_tags));
+                cases.push((vec![c.clone(), d.clone()], swap_tags));
+            }
         }
     }
     let chunk = 128usize;
@@ -1076,14 +1300,15 @@ fn part_font(rep: &mut Reporter, tier: Tier) -> Stats {
         let mut cnt = FCounts::default();
         let mut cls = Classes::default();
         let mut samples = vec![];
-        for (ci, defs) in cases[ti * chunk..((ti + 1) * chunk).min(cases.len())].iter().enumerate() {
+        for (ci, (defs, swap_tags)) in cases[ti * chunk..((ti + 1) * chunk).min(cases.len())].iter().enumerate() {
             let seq = (ti * chunk + ci) as u64;
             let want_sample = samples.is_empty() && ci == 77;
-            let found = check_font(defs, &mut rig, &mut cnt, if want_sample { Some(&mut samples) } else { None });
+            let found = check_font(defs, *swap_tags, &mut rig, &mut cnt, if want_sample { Some(&mut samples) } else { None });
             for (key, msg) in found {
                 let size: Size = (defs.iter().map(|d| d.nodes.len()).sum::<usize>() + 10 * defs.len(), defs.iter().map(|d| d.flat_segments()).sum(), seq);
                 let what = defs.iter().map(|d| d.describe()).collect::<Vec<_>>().join(" + ");
-                cls.add(key, size, format!("{what}: {msg}"), font_json(defs));
+                let what = if defs.len() > 1 { format!("axes declared as {} — {what}", case_tags(defs.len(), *swap_tags).iter().map(|t| t.0).collect::<Vec<_>>().join(", ")) } else { what };
+                cls.add(key, size, format!("{what}: {msg}"), font_json(defs, *swap_tags));
             }
         }
         (cnt, cls, samples)
@@ -1115,11 +1340,24 @@ fn part_font(rep: &mut Reporter, tier: Tier) -> Stats {
     rep.set("fonts_with_bent_axis", total.nontrivial);
     rep.set("font_instance_coordinates_checked", total.instances_checked);
     rep.set("font_instance_coordinates_compared_exactly", total.instances_exact);
+    rep.set("font_instances_judged", total.instances_judged);
+    rep.set("font_instances_with_omitted_axis", total.instances_with_omitted_axis);
+    rep.set("font_instances_spelling_no_axis", total.instances_spelling_no_axis);
+    rep.set("font_omitted_axis_coordinates", total.omitted_coordinates);
+    rep.set("font_omitted_axis_coordinates_with_nonzero_default", total.omitted_coordinates_default_nonzero);
+    rep.set("font_instance_names_resolved", total.instance_names_resolved);
+    rep.set("font_instances_reusing_name_id_2_or_17", total.instances_reusing_subfamily_id);
+    rep.set("font_designs_nonalphabetical_axis_order", total.nonalphabetical_axis_order);
+    rep.set("font_max_instances_per_font", total.max_instances_per_font);
+    probe_empty_location(rep);
     rep.set("font_max_error_over_tolerance", (total.max_err_over_tol * 1000.0).round() / 1000.0);
     rep.set("failing_fonts_by_class", json!(failing));
     rep.set("font_samples", samples);
     rep.assume("part (ii): the axis is written as a designspace <map> (no <map> when it is the identity) on a one-glyph font with masters at the default and at each design extreme that differs from it; quick: user nodes from {100,150.5,200,300,400,600,900}, design values from {20,40,60,90.5,120,160,200}, 2-4 nodes, every default position; thorough: the full part (i) alphabets with 2-4 nodes plus all 5-node definitions over the quick alphabets; two-axis fonts pair every 2-3 (thorough 2-4) node definition over a 5x5 sub-alphabet with three fixed companion axes in both axis orders");
-    rep.assume("part (ii) normalizes with otvar's integer pipeline (Fixed 16.16 default normalisation, avar segment map, F2Dot14 result) on the raw fvar/avar bytes; tolerance 2^-14*(1+S) as in part (i); axes whose design values are all equal are skipped (no variable font can be built on them) and counted; instances are written in design coordinates, so their fvar coordinates are compared with the source's user values only where the mapping is strictly increasing around them, within 2^-16");
+    rep.assume("part (ii) normalizes with otvar's integer pipeline (Fixed 16.16 default normalisation, avar segment map, F2Dot14 result) on the raw fvar/avar bytes; tolerance 2^-14*(1+S) as in part (i); axes whose design values are all equal are skipped (no variable font can be built on them) and counted");
+    rep.assume("named instances (part ii): every font carries every instance of the space: per axis the user values {min, default, max, first interior mapping node other than the default, midpoint of the first segment} (duplicates removed); for every subset of axes whose <dimension> is left out of the <location> (1 axis: none / the axis; 2 axes: none / first / second / both) every combination of the other axes' values. A left-out dimension means the axis default (designspace semantics), so its fvar coordinate must be the axis default exactly (Fixed 16.16). Spelled dimensions are written in design coordinates through the axis map; the fvar coordinate is compared with the source's user value only where the mapping is strictly increasing around it: exactly when the design value is an f32 and the user value a Fixed 16.16 number (always, over these alphabets), else within 2^-16 + f32 error * du/dd. Every coordinate must lie inside the fvar range and the source range. Instance count and order as in the source; subfamilyNameID in {2, 17, 256..32767} and its Windows en-US string equals the instance's style name (the instance spelling the default location is called Regular like the default master, the others Inst<n>)");
+    rep.assume("a location that spells none of the axes is written with one <dimension> naming an axis the document does not declare ('Unused'): the designspace reader (norad) rejects a <location> without any <dimension>, although such a location is valid (everything at default); fontc, like fontTools, skips dimensions of undeclared axes with a warning. The empty <location> itself is probed once per run and reported in evidence (font_empty_instance_location), not judged: acceptance of inputs is not part of this property");
+    rep.assume("2-axis fonts are built with the axis tags declared as (wght, wdth) — declared order differs from the alphabetical order of the tags — and as (wdth, wght); fvar axis records, avar segment maps and instance coordinates must follow the declared order");
     Stats {
         evaluations: total.points,
         nontrivial: total.nontrivial,
@@ -1152,10 +1390,12 @@ fn replay_font(r: &Value) -> ! {
     if defs.is_empty() || defs.len() > 2 {
         bad("1 or 2 axes");
     }
+    // replay files written before the tag order became a dimension have no such key: wght, wdth
+    let swap_tags = r.get("swap_tags").and_then(|x| x.as_bool()).unwrap_or(false);
     let mut rig = FontRig::new();
     let mut cnt = FCounts::default();
     let mut sample = vec![];
-    let found = check_font(&defs, &mut rig, &mut cnt, Some(&mut sample));
+    let found = check_font(&defs, swap_tags, &mut rig, &mut cnt, Some(&mut sample));
     for d in &defs {
         println!("{}", d.describe());
     }
@@ -1180,6 +1420,18 @@ fn replay(path: &Path) -> ! {
     let text = std::fs::read_to_string(path).unwrap_or_else(|e| bad(&e.to_string()));
     let v: Value = serde_json::from_str(&text).unwrap_or_else(|e| bad(&e.to_string()));
     let r = v.get("replay").unwrap_or(&v);
+    if r.get("part").and_then(|x| x.as_str()) == Some("empty-location-probe") {
+        std::panic::set_hook(Box::new(|_| {}));
+        let (outcome, found) = run_empty_location_probe();
+        println!("instance <location> without dimensions: {outcome}");
+        for (k, m) in &found {
+            println!("{k}: {m}");
+        }
+        let fails = !found.is_empty();
+        println!("replay: the case {}", if fails { "still fails" } else { "no longer fails" });
+        vcore::cleanup_scratch();
+        std::process::exit(fails as i32)
+    }
     if r.get("part").and_then(|x| x.as_str()) == Some("font") {
         std::panic::set_hook(Box::new(|_| {}));
         replay_font(r);
@@ -1228,13 +1480,17 @@ fn main() {
     let mut rep = Reporter::new("C08", "exploration", &args);
     let hook = std::panic::take_hook();
     std::panic::set_hook(Box::new(|_| {}));
+    let t0 = std::time::Instant::now();
     let pure = part_pure(&mut rep, args.tier);
+    let t1 = std::time::Instant::now();
     let font = part_font(&mut rep, args.tier);
+    rep.set("wall_s_part_i", ((t1 - t0).as_secs_f64() * 10.0).round() / 10.0);
+    rep.set("wall_s_part_ii", (t1.elapsed().as_secs_f64() * 10.0).round() / 10.0);
     std::panic::set_hook(hook);
     rep.set("evaluations", pure.evaluations + font.evaluations);
     rep.set("distinct_nontrivial", pure.nontrivial + font.nontrivial);
     rep.set("rule", "evaluations = user values converted through the real converter and compared with the reference (nodes, midpoints, quarter points of every segment) + user values pushed through fvar normalisation and the produced avar segment map. distinct_nontrivial = distinct axis definitions (distinct by construction) whose mapping is not the default normalisation, i.e. some node's design-normalized value differs from its fvar-normalized value, so avar has to bend the axis; part (ii) adds the user values normalized through compiled fonts and the compiled fonts with such a bent axis");
     rep.set("exhaustive", true);
-    rep.set("parts_implemented", json!(["i: CoordConverter + avar/fvar work items", "ii: designspace <map> -> fvar/avar of the compiled font"]));
+    rep.set("parts_implemented", json!(["i: CoordConverter + avar/fvar work items", "ii: designspace <map> -> fvar/avar of the compiled font; named instances (every axis spelled / any subset of dimensions left out) -> fvar instance records and their names; declared axis order"]));
     rep.finish()
 }
